@@ -2,6 +2,7 @@ import Props.C05Calls
 import Proofs.Core
 import Proofs.SpecLemmas
 import SynapModel.Ops
+import SynapModel.Ctors
 import Proofs.SpecOps
 /-!
 # C05 — Forward results of tensor ops match the NumPy / PyTorch definition they mirror
@@ -229,6 +230,45 @@ theorem arange_spec (start stop step : Int) (hstep : 0 < step) (vs : List Int) (
     have h3 : n ≤ (n.toNat : Int) := Int.self_le_toNat n
     have h4 : step * n ≤ step * (n.toNat : Int) := Int.mul_le_mul_of_nonneg_left h3 (by omega)
     linarith
+
+/-! ### constructor calls: argument positions and falsy-but-meaningful values (`SynapModel/Ctors.lean`) -/
+section CtorCalls
+open Synap.Ctors
+
+/-- **The forms of `arange` are told apart by the NUMBER of arguments**, never by their values:
+    `arange(e)`, `arange(s, e)`, `arange(s, e, d)`. -/
+theorem arange_forms (s e d : Int) :
+    arangeArgs [e] = some (0, e, 1) ∧ arangeArgs [s, e] = some (s, e, 1) ∧ arangeArgs [s, e, d] = some (s, e, d) ∧
+    arangeArgs ([] : List Int) = none :=
+  ⟨rfl, rfl, rfl, rfl⟩
+
+/-- an explicit end of `0` is an END: `arange(s, 0)` is the interval `[s, 0)`, not `arange(0, s)` -/
+theorem arange_explicit_end_zero (s d : Int) :
+    arangeArgs [s, 0] = some (s, 0, 1) ∧ arangeArgs [s, 0, d] = some (s, 0, d) := ⟨rfl, rfl⟩
+
+/-- `arange(-n, 0)` counts `-n, …, -1` (it is not the empty tensor) -/
+theorem arange_negative_interval (n : Nat) :
+    (arangeArgs [-(n : Int), 0]).bind (fun (s, e, d) => arangeVals s e d) =
+      some ((List.range n).map (fun (k : Nat) => -(n : Int) + 1 * (k : Int))) := by
+  simp [arangeArgs, arangeVals, Option.bind]
+
+/-- a count-down to `0`: `arange(n, 0, -1)` has the `n` values `n, n-1, …, 1` -/
+theorem arange_count_down (n : Nat) :
+    (arangeArgs [(n : Int), 0, -1]).bind (fun (s, e, d) => arangeVals s e d) =
+      some ((List.range n).map (fun (k : Nat) => (n : Int) + -1 * (k : Int))) := by
+  simp [arangeArgs, arangeVals, Option.bind]
+
+/-- an optional argument that was GIVEN is used as given whatever its truth value; omitted and `None` select the default -/
+theorem opt_given_is_kept {β : Type} (v dflt : β) :
+    (Opt.given v).get dflt = v ∧ (Opt.omitted : Opt β).get dflt = dflt ∧ (Opt.none : Opt β).get dflt = dflt := ⟨rfl, rfl, rfl⟩
+
+/-- `zeros()` / `zeros(())` / `zeros([])` are 0-d; `zeros(0)` has ONE axis of extent 0 -/
+theorem ctor_empty_shape_vs_zero_extent :
+    (ShapeArgs.varargs []).norm = [] ∧ (ShapeArgs.tuple []).norm = [] ∧ (ShapeArgs.list []).norm = [] ∧
+    (ShapeArgs.varargs [0]).norm = [0] ∧ Shape.size ([] : Shape) = 1 ∧ Shape.size [0] = 0 := by
+  refine ⟨rfl, rfl, rfl, rfl, ?_, ?_⟩ <;> simp [Shape.size]
+
+end CtorCalls
 
 /-! ### iteration protocol -/
 /-- iterator state of the model: (tensor length, next position) per live iterator -/
